@@ -1,6 +1,6 @@
 SPECIFICATION Spec
 CONSTANTS
-  Quirks = {"DashOnlyInCap", "CommentEndsBlock", "NumAlwaysMerged", "DoubleHideCrash"}
+  Quirks = {"CommentEndsBlock"}
 INVARIANT BlockAsDocumented
 PROPERTY Progress
 CHECK_DEADLOCK FALSE
